@@ -809,6 +809,17 @@ where
         )
     }
 
+    /// Verification hook: public wrapper around the crate-private constructor (the zombie
+    /// receiver is dropped). Exists only with `--cfg d_engine_verif`.
+    #[cfg(d_engine_verif)]
+    pub fn verif_new(
+        node_id: u32,
+        initial_nodes: Vec<NodeMeta>,
+        config: RaftNodeConfig,
+    ) -> Self {
+        Self::new(node_id, initial_nodes, config).0
+    }
+
     /// Subscribe to committed membership change notifications.
     ///
     /// The returned receiver immediately has the current snapshot available
